@@ -134,6 +134,10 @@ def decide_pair(hist, data, name_a, res_a, conv_a, name_b, res_b, conv_b, part, 
     if sa == "ambiguous":
         part.count("skipped_ambiguous_order")
         return "ambiguous"
+    if sa == "unspecified" and ("incomplete block" in str(ra) or "block key not in control table" in str(ra)):
+        # a pivot fed with incomplete blocks / unknown block keys: outside the record transform's documented domain
+        part.count("skipped_input_outside_operator_domain")
+        return "outside_domain"
     sb, rb, _ = r_eval(hist, data, conv_b, ())
     if sa == "ok" and sb == "ok" and req(hist, res_a, ra) and req(hist, res_b, rb):
         part.count("accepted_difference")
